@@ -61,6 +61,17 @@ def oracle(S, proto, path, op, a0, a1, obs, want1):
     for k, cls in enumerate(S['frozen']):
         if cls is not None and a1['rg'][k] and (op == ['init'] or not a0['rg'][k]):
             fails.append(('frozen-trainable:%s:%s' % (cls, op[0]), '%s of a %s has requires_grad=True after %s' % (names[k], cls, M.op_name(op))))
+    # (2b) independent of what the library built: the feature mask of every layer whose output features the network's
+    #      dataflow ties to a network input / output (through unary ops, adds, depthwise convs and, transitively, concats;
+    #      or to a layer excluded from the search) is never trainable and never receives a gradient
+    for ln, k in S.get('tied', []):
+        if k is None:
+            fails.append(('io-tied-mask-missing', 'layer %s: its feature mask is not among the model\'s tensors' % ln))
+            continue
+        if a1['rg'][k] and (op == ['init'] or not a0['rg'][k]):
+            fails.append(('io-tied-mask-trainable:%s' % op[0], 'layer %s has its output features tied to a network input/output by the dataflow, but its mask %s has requires_grad=True after %s' % (ln, names[k], M.op_name(op))))
+        if obs is not None and obs[k] == 2:
+            fails.append(('io-tied-mask-gets-grad', 'layer %s has its output features tied to a network input/output by the dataflow, but its mask %s has a non-zero .grad after forward + (loss+cost).backward()' % (ln, names[k])))
     # (3) train_* make exactly the named group trainable
     if op[0] in ('train_nas_only', 'train_net_only', 'train_net_and_nas'):
         group = set(nas) if op[0] == 'train_nas_only' else set(net) if op[0] == 'train_net_only' else set(nas) | set(net)
@@ -117,6 +128,7 @@ def explore(args):
     E = M.env()
     method, model, x = M.build(proto, E, seed)
     S = M.describe(method, model, x)
+    S['tied'] = M.tied_masks(proto, model, S)
     ops = M.alphabet(method, thorough)
     a_init = M.observe(model, S)
     # one real object per prototype; a state is re-entered by restoring the reset point taken when it was first reached
@@ -192,7 +204,7 @@ def run(ctx):
             allfails.append((r, f))
         ctx.extra.setdefault('exploration', {})[r['proto']] = {'abstract_states': r['n_states'], 'transitions': len(r['trans']), 'closed': r['closed'],
                                                                'new_states_per_depth': r['depth_states'], 'ops': r['n_ops'],
-                                                               'frozen': [n for n, c in zip(S['names'], S['frozen']) if c], 'tensors': len(S['names']), 'samplers': len(S['sampler_names'])}
+                                                               'frozen': [n for n, c in zip(S['names'], S['frozen']) if c], 'io_tied_layers_by_dataflow': [ln for ln, _ in S.get('tied', [])], 'tensors': len(S['names']), 'samplers': len(S['sampler_names'])}
     ctx.exhaustive = True
     ctx.extra['exhaustive_part'] = 'all op sequences over the alphabet, per prototype, modulo the abstract state: every transition of every reachable abstract state (closed = no new state at the last depth; depth >= %d always)' % MAXLEN
     if not all(r['closed'] or len(r['depth_states']) > MAXLEN for r in res):
@@ -316,6 +328,7 @@ def replay(r):
     E = M.env()
     method, model, x = M.build(r['prototype'], E, r.get('seed', 0))
     S = M.describe(method, model, x)
+    S['tied'] = M.tied_masks(r['prototype'], model, S)
     a = M.observe(model, S)
     want = want_init(S, a)
     fails = []
